@@ -519,8 +519,7 @@ static void run_switch(Ctx &c) {
   c.logf("connection over a stream (COBS, id length 0), %zu round(s)", rounds);
   for (size_t round = 0; round < rounds; round++) {
     int drawn = round ? (int)c.pick(NFraming) : 0;
-    if (round && fr == FCommand) c.label("switch:none-from-command");
-    else if (round) {
+    if (round) {
       int to = drawn;
       // Once the connection runs the command framing no further switch is exercised: on the unchanged tree a switch away
       // from "command" re-reads queued bytes (DESIGN 11.6, not triaged), so the scenario stays with COBS-family origins.
@@ -646,7 +645,7 @@ static Target t = {
     "(estimate | size the decoder asks for | 0..8) x 1-4 iovecs (slices of one block or separate exact-size heap blocks, zero-length pieces) x schedule "
     "(whole | byte-wise | drawn steps with size queries and peeks interleaved); 1 case in 8 at queue level: the same inputs pushed in drawn pieces into a decode_queue and read with "
     "mpt_queue_recv / mpt_queue_peek / mpt_message_get, growth on MissingBuffer, retries after errors; 4 in 256 at connection level: a stream connection (mpt_connection_open on a unix socket) "
-    "receives rounds of 1-3 reference-encoded frames in drawn write pieces and has its \"encoding\" property switched between rounds (COBS-family origin x 5 framings) while the read queue "
+    "receives rounds of 1-3 reference-encoded frames in drawn write pieces and has its \"encoding\" property switched between rounds (5 x 5 framings) while the read queue "
     "holds consumed bytes, each round must deliver exactly the messages sent in it. oracle: safety invariants after every call, delivered messages == reference decoder on the "
     "leading well-formed frames, after an error only reference messages of later frames, no pending message on 'incomplete'. exhaustive: all strings of length <= 5 (quick) / <= 6 (thorough) over "
     "{00,01,02,1F,20,DE,DF,E0,E1,FE,FF} x 5 decoders x {whole, byte-wise, three separate blocks}. non-trivial: the decoder returned at least two "
